@@ -205,6 +205,19 @@ def make_adapter_classes():
         def mk_descr(self):
             return f"wrap {self.tag}"
 
+    class DropBody(RA):
+        """a response processor whose legitimate result is None"""
+
+        def __init__(self, tag):
+            self.tag = tag
+
+        def process_response(self, return_value):
+            return None
+
+        def mk_descr(self):
+            return f"drop {self.tag}"
+
+    HeaderAdder.DropBody = DropBody
     return HeaderAdder, RespWrapper
 
 
@@ -223,6 +236,8 @@ def make_adapter(spec, classes):
         return cls(spec["tag"])
     if k == "prefix":
         return conn_http.RequestAdapterAddPathPrefix(spec["prefix"])
+    if k == "drop":
+        return HeaderAdder.DropBody(spec["tag"])
     if k == "auth":
         kind = spec["kind"]
         if kind == "bauth":
